@@ -23,6 +23,22 @@ from vkit import tspec
 env.import_adaptix()
 
 import hypothesis  # noqa: E402
+
+
+def _drop_hypothesis_gc_callback():
+    """Hypothesis registers a gc callback (timing statistics) that runs at arbitrary points, also at the bottom of the
+    deliberately deep "churn" histories, where it dies with RecursionError and Python prints "Exception ignored in ..." on
+    stderr.  Nothing of the check runs there; the callback is registered once (lazily), so it is triggered and removed."""
+    import gc  # noqa: PLC0415
+    try:
+        from hypothesis.internal.conjecture.junkdrawer import gc_cumulative_time  # noqa: PLC0415
+        gc_cumulative_time()
+    except Exception:  # noqa: BLE001
+        return
+    gc.callbacks[:] = [cb for cb in gc.callbacks if "gc_cumulative_time" not in getattr(cb, "__qualname__", "")]
+
+
+_drop_hypothesis_gc_callback()
 from hypothesis import strategies as st  # noqa: E402
 from hypothesis.stateful import RuleBasedStateMachine, rule, run_state_machine_as_test  # noqa: E402
 
@@ -36,6 +52,25 @@ DEBUG = [DebugTrail.DISABLE, DebugTrail.FIRST, DebugTrail.ALL]
 
 
 # ------------------------------------------------------------------------------------ the confusable pool
+import enum as _enum  # noqa: E402
+
+
+class EnumA(_enum.Enum):
+    RED = 1
+    BLUE = 2
+
+
+class EnumB(_enum.Enum):
+    BIG = 1
+    SMALL = 2
+
+
+@dataclasses.dataclass
+class EnumModel:
+    p: EnumA
+    q: EnumB
+
+
 @dataclasses.dataclass
 class A1:
     x: int
@@ -152,6 +187,7 @@ POOL: Dict[str, Any] = {
     "str": str, "Node": Node, "ListNode": List[Node], "MA": MA, "MB": MB,
     "RNode": RNode, "Wrap": Wrap, "HasUnloadable": HasUnloadable, "Unloadable": Unloadable, "ListUnloadable": List[Unloadable],
     "DictStrInt": Dict[str, int], "dict": dict, "DictStrBool": Dict[str, bool],
+    "EnumA": EnumA, "EnumB": EnumB, "EnumModel": EnumModel, "ListEnumB": List[EnumB],
 }
 CONFUSABLE_GROUPS = [
     {"Lit01", "LitFT", "Lit0", "LitF", "Lit1T", "OptLit0", "OptLitF"}, {"ListLit01", "ListLitFT"}, {"TupLit1T", "TupLitT1"},
@@ -159,7 +195,7 @@ CONFUSABLE_GROUPS = [
     {"U_int_str", "U_str_int", "int|str", "U_int_str_None", "U_nested"}, {"OptInt", "U_None_int", "int|None"},
     {"A1", "A2", "A1Twin", "NT1"}, {"ListA1", "ListA2"}, {"Id1", "Id2"}, {"ListId1", "ListId2"}, {"AnnIntA", "AnnIntB", "int"},
     {"Node", "ListNode"}, {"MA", "MB"}, {"RNode", "Wrap", "HasUnloadable", "Unloadable", "ListUnloadable"},
-    {"DictStrInt", "dict", "DictStrBool"},
+    {"DictStrInt", "dict", "DictStrBool"}, {"EnumA", "EnumB", "EnumModel", "ListEnumB"},
 ]
 GROUP_OF = {name: i for i, g in enumerate(CONFUSABLE_GROUPS) for name in g}
 
@@ -167,13 +203,16 @@ BATTERY = [0, 1, True, False, None, "a", "1", 1.0, [0, 1], [True, False], [1, Tr
            {"a": 0}, {"a": True}, {"x": 1}, {"x": 1, "y": "s"}, {"x": "s", "y": 1}, {"f": 0, "g": [1]}, {"f": True, "g": [False]},
            {"value": 1, "children": [{"value": 2, "children": []}]}, {"value": 1, "children": [{"value": "bad", "children": []}]},
            {"v": 1, "b": {"w": "s", "a": {"v": 2}}}, {"w": "s", "a": {"v": 1, "b": None}}, {"value": 1, "nxt": [None, "u"]},
-           {"node": {"value": 1, "nxt": [{"value": 2, "nxt": [None, "u"]}, "u"]}}, {"a": 1, "u": "u"}, [[1]], "u"]
+           {"node": {"value": 1, "nxt": [{"value": 2, "nxt": [None, "u"]}, "u"]}}, {"a": 1, "u": "u"}, [[1]], "u",
+           "RED", "BIG", ["BIG", "SMALL"], {"p": "RED", "q": "BIG"}, {"p": 1, "q": 2}]
 DUMP_VALUES = {
     "A1": lambda: A1(1, "s"), "A2": lambda: A2(2), "NT1": lambda: NT1(1), "ListA1": lambda: [A1(1)], "Node": lambda: Node(1, [Node(2, [])]),
     "MA": lambda: MA(1, MB("s", MA(2))), "ListInt": lambda: [1, 2], "listint": lambda: [3], "SeqInt": lambda: (1,), "Lit01": lambda: 1,
     "LitFT": lambda: True, "LitModel01": lambda: LitModel01(1, [0]), "LitModelFT": lambda: LitModelFT(True, [False]),
     "U_int_str": lambda: "s", "OptInt": lambda: None, "Id1": lambda: 5, "DictStrInt": lambda: {"a": 1}, "OptA1": lambda: A1(3),
     "A1Twin": lambda: A1Twin("s"), "Wrap": lambda: Wrap(RNode(1, (None, Unloadable()))),
+    "EnumA": lambda: EnumA.RED, "EnumB": lambda: EnumB.BIG, "EnumModel": lambda: EnumModel(EnumA.BLUE, EnumB.SMALL),
+    "ListEnumB": lambda: [EnumB.SMALL],
 }
 
 
@@ -195,6 +234,9 @@ RECIPES = {
     "located_unloadable": lambda: [loader(P[Wrap].node.nxt.generic_arg(1, Unloadable), _unloadable_loader),
                                    adaptix.dumper(P[Wrap].node.nxt.generic_arg(1, Unloadable), lambda o: "u")],
     "a1_x_field": lambda: [loader(P[A1].x, _int_plus)],
+    # a provider bound by several predicates at once (its checker is consulted by every request of the retort)
+    "enum_names_multi": lambda: [adaptix.enum_by_name(EnumA, EnumB)],
+    "enum_names_field_and_type": lambda: [adaptix.enum_by_name(P[EnumModel].p, EnumB, "nope")],
 }
 CONV_PAIRS = {"A1->A2": (A1, A2), "A1->Dst1": (A1, Dst1), "A2->Dst1": (A2, Dst1), "A1->DstOpt": (A1, DstOpt),
               "A1->DstBad": (A1, DstBad), "A1Twin->Dst1": (A1Twin, Dst1), "NT1->A1": (NT1, A1), "A2->A1": (A2, A1),
@@ -242,8 +284,10 @@ class World:
         recipe = []
         # extend() prepends: the effective recipe is ext_n + ... + ext_1 + base
         for name in reversed(a.get("extended", [])):
-            recipe += self._ext_providers(name)
-        recipe += self.providers
+            recipe += self._ext_providers(name) if args is None else RECIPES[name]()
+        # the warm retort is built once from one set of provider objects; a fresh retort for a probe gets provider objects
+        # of its own ("fresh" must not inherit whatever the requests did to the warm retort's providers)
+        recipe += self.providers if args is None else RECIPES[a["recipe"]]()
         return Retort(recipe=recipe, strict_coercion=a["strict"], debug_trail=DEBUG[a["debug"]])
 
     _ext_cache: dict = {}
